@@ -39,6 +39,14 @@ def dead_window(router):
             bad.append('%s: key %d is in flight on workers %s at the same time' % (label, K, flying))
         if len(holders) > 1:
             bad.append('%s: key %d is pending on workers %s' % (label, K, holders))
+    # submission order: the job retained for the replacement (message 100) stays in front of the one submitted after it (101)
+    w0 = parse_books(steps['second'].split('|')[0])
+    ids = [m for k, m in w0[0] if k == K]
+    if ids and ids != sorted(ids):
+        bad.append('second: the jobs of key %d wait in the order %s on worker 0, submitted as %s' % (K, ids, sorted(ids)))
+    w0 = parse_books(steps['replaced'].split('|')[0])
+    if K in w0[1] and [m for k, m in w0[0] if k == K] == [100]:
+        bad.append('replaced: the replacement was handed job 101 while the older job 100 of the same key still waits')
     return bad, steps
 
 
